@@ -138,7 +138,7 @@ def eval_case(rng):
     method = rng.random() < 0.4
     pool = [[RL.RECURSE], [RL.RECURSE], [RL.ALIAS], [RL.RECURSE, RL.ALIAS]] + ([] if method else [[RL.SELFNAME], [RL.SELFNAME, RL.RECURSE]])
     syms = rng.choice(pool)
-    g = RL.EvalGen(rng, syms=syms, cs=RL.CALL_NEXT if rng.random() < 0.7 else None, method=method, p_odd=0.025)
+    g = RL.EvalGen(rng, syms=syms, cs=RL.CALL_NEXT if rng.random() < 0.7 else None, method=method, p_odd=0.012)
     body = g.body()
     if rng.random() < 0.03:
         # hygiene (KF-26): a comprehension variable called `type`
@@ -156,7 +156,17 @@ def scenario_of(case):
     return dict(method=method, leaves=RT.DEFAULT_LEAVES, m_src=m_src, globals={str(k): v for k, v in GLOB.items()}, arg2=case["arg2"])
 
 
+def _fun(v):
+    """a lambda that went through user code comes back as its first-order view (data 0): compare functions as that"""
+    if isinstance(v, list):
+        if v == [7]:
+            return [5, 0]
+        return [_fun(x) for x in v]
+    return v
+
+
 def model_outcome(o):
+    o = _fun(o)
     if o[0] == [0]:
         return ["fuel"]
     out = o[0]
